@@ -718,10 +718,13 @@ fn clone_sequences(rep: &mut Report) {
                         let inp = || json!({"type": "UnknownAttributes", "shape": shape, "entries": n, "route": route, "mutated": which, "added": extra});
                         let base = base.clone();
                         np("UnknownAttributes::add", "long-shaped-list", &inp, rep, move || {
-                            let mut model: Vec<u16> = vec![];
+                            // list models: whether a list keeps one entry per code or every entry given is not C19's
+                            // question (either is accepted, for construction and for `add`); what is: the value mutated holds
+                            // one of the lists the models allow, the OTHER copy holds exactly what it held before
+                            let mut dedup: Vec<u16> = vec![];
                             for x in &base {
-                                if !model.contains(x) {
-                                    model.push(*x);
+                                if !dedup.contains(x) {
+                                    dedup.push(*x);
                                 }
                             }
                             let mut u = if route == "from-slice" {
@@ -733,14 +736,17 @@ fn clone_sequences(rep: &mut Report) {
                                 }
                                 u
                             };
+                            let before = u.attributes().to_vec();
+                            let base_ok = before == dedup || before == base;
                             let mut c = u.clone();
-                            let mut model_c = model.clone();
-                            let (target, tm) = if which == "original" { (&mut u, &mut model) } else { (&mut c, &mut model_c) };
+                            let target = if which == "original" { &mut u } else { &mut c };
                             target.add(extra);
-                            if !tm.contains(&extra) {
-                                tm.push(extra);
-                            }
-                            (u.attributes() == model.as_slice(), c.attributes() == model_c.as_slice(), u.iter().count() == model.len())
+                            let mut appended = before.clone();
+                            appended.push(extra);
+                            let kept_one = if before.contains(&extra) { before.clone() } else { appended.clone() };
+                            let (t, o) = if which == "original" { (&u, &c) } else { (&c, &u) };
+                            let target_ok = t.attributes() == appended.as_slice() || t.attributes() == kept_one.as_slice();
+                            (base_ok && target_ok, o.attributes() == before.as_slice(), t.iter().count() == t.attributes().len())
                         })
                         .map(|(a, b, cnt)| {
                             if !(a && b && cnt) {
